@@ -753,6 +753,7 @@ namespace bloch::compiler {
 
     // Statements
     std::unique_ptr<Statement> Parser::parseStatement() {
+        DepthGuard depth(*this);
         if (check(TokenType::LBrace))
             return parseBlock();
 
@@ -1090,13 +1091,18 @@ namespace bloch::compiler {
     }
 
     std::unique_ptr<Expression> Parser::parsePrattExpression(int minBp) {
+        DepthGuard depth(*this);
         std::unique_ptr<Expression> left = parsePrefixExpression();
 
+        // Every operator applied in this loop puts the tree built so far one level deeper.
+        int chain = 0;
         while (true) {
             const Token& tok = peek();
             auto binding = infixBinding(tok.type);
             if (!binding || binding->lbp < minBp)
                 break;
+            if (m_depth + ++chain > kMaxNestingDepth)
+                reportError("nesting too deep");
 
             (void)advance();  // consume operator / postfix marker
 
@@ -1395,6 +1401,7 @@ namespace bloch::compiler {
     // Types
 
     std::unique_ptr<Type> Parser::parseType(bool allowEmptyTypeArguments) {
+        DepthGuard depth(*this);
         std::unique_ptr<Type> baseType;
         if (check(TokenType::Void)) {
             (void)advance();
